@@ -12,16 +12,20 @@ Definition kernel_ok (p : point) : bool :=
   | Alg_NO_QUANTIZE => false
   end.
 
-(* F20 (known finding): the one accepted class the runtime does not support *)
+(* F20 / F21 (known findings): the accepted classes the runtime does not support *)
+Definition wt_gran (p : point) (g : granularity) : bool :=
+  match ocfg_weight_tensor_config (p_cfg p) with
+  | Some w => granularity_eqb (tcfg_granularity w) g | None => false end.
+Definition is_dynamic (p : point) : bool :=
+  precision_eqb (ocfg_compute_precision (p_cfg p)) Prec_INTEGER
+  && is_none (ocfg_activation_tensor_config (p_cfg p)).
+Definition is_static (p : point) : bool :=
+  precision_eqb (ocfg_compute_precision (p_cfg p)) Prec_INTEGER
+  && negb (is_none (ocfg_activation_tensor_config (p_cfg p))).
 Definition f20 (p : point) : bool :=
-  algname_eqb (p_alg p) Alg_MIN_MAX_UNIFORM_QUANT && opname_eqb (p_op p) Op_DEPTHWISE_CONV_2D
-  && precision_eqb (ocfg_compute_precision (p_cfg p)) Prec_INTEGER
-  && is_none (ocfg_activation_tensor_config (p_cfg p))
-  && match ocfg_weight_tensor_config (p_cfg p) with
-     | Some w => granularity_eqb (tcfg_granularity w) Gr_TENSORWISE && Z.eqb (tcfg_num_bits w) 8
-                 && tcfg_symmetric w && dtype_eqb (tcfg_dtype w) Dt_INT
-     | None => false end
-  && negb (ocfg_explicit_dequantize (p_cfg p)).
+  accepted p && algname_eqb (p_alg p) Alg_MIN_MAX_UNIFORM_QUANT
+  && ((opname_eqb (p_op p) Op_DEPTHWISE_CONV_2D && is_dynamic p && wt_gran p Gr_TENSORWISE)
+      || (opname_eqb (p_op p) Op_BATCH_MATMUL && is_static p && wt_gran p Gr_CHANNELWISE)).
 
 Definition sound_point (p : point) : bool :=
   implb (accepted p)
@@ -62,6 +66,30 @@ Print Assumptions C13_accept_sound_partial.
 Definition f20_witness : point :=
   {| p_alg := Alg_MIN_MAX_UNIFORM_QUANT; p_op := Op_DEPTHWISE_CONV_2D;
      p_cfg := Mk_ocfg None (Some (Mk_tcfg 8 true Gr_TENSORWISE Dt_INT 0)) Prec_INTEGER false false |}.
+Definition f21_witness : point :=
+  {| p_alg := Alg_MIN_MAX_UNIFORM_QUANT; p_op := Op_BATCH_MATMUL;
+     p_cfg := Mk_ocfg (Some (Mk_tcfg 8 false Gr_TENSORWISE Dt_INT 0))
+                      (Some (Mk_tcfg 8 true Gr_CHANNELWISE Dt_INT 0)) Prec_INTEGER false false |}.
+Theorem C13_accept_sound_refuted_bmm :
+  exists p, In p lattice /\ accepted p = true /\ kernel_ok p = false.
+Proof.
+  exists f21_witness. split; [|split; vm_compute; reflexivity].
+  unfold lattice, f21_witness.
+  apply in_flat_map. exists Alg_MIN_MAX_UNIFORM_QUANT. split; [cbn; auto|].
+  apply in_flat_map. exists Op_BATCH_MATMUL. split; [vm_compute; auto 30|].
+  apply in_map_iff. eexists. split; [reflexivity|].
+  unfold lat_cfgs.
+  apply in_flat_map. exists (Some (Mk_tcfg 8 false Gr_TENSORWISE Dt_INT 0)). split; [cbn; auto|].
+  apply in_flat_map. exists (Mk_tcfg 8 true Gr_CHANNELWISE Dt_INT 0). split; [vm_compute; auto 30|].
+  apply in_flat_map. exists Prec_INTEGER. split; [cbn; auto|].
+  apply in_map_iff. exists false. split; [reflexivity|cbn; auto].
+Qed.
+Print Assumptions C13_accept_sound_refuted_bmm.
+
+(* number of accepted lattice points in the two unsupported classes *)
+Example C13_unsound_points : Z.of_nat (length (filter f20 lattice)) = 4.
+Proof. vm_compute. reflexivity. Qed.
+
 Theorem C13_accept_sound_refuted :
   exists p, In p lattice /\ accepted p = true /\ kernel_ok p = false.
 Proof.
